@@ -125,6 +125,8 @@ type Result struct {
 	Hang  string     `json:"hang,omitempty"`
 	// Missed: a subscriber that keeps up was not handed a forwarded request while another one was stalled
 	Missed []string `json:"missed,omitempty"`
+	// Fired: injected commit failures that actually hit a transaction
+	Fired int64 `json:"fired,omitempty"`
 	Panic string     `json:"panic,omitempty"`
 }
 
@@ -157,6 +159,50 @@ func b2i(b bool) int64 {
 		return 1
 	}
 	return 0
+}
+
+// ---- storage faults
+
+// faultyEngine wraps a node's engine: while armed, the commit of the next transaction that wrote a
+// non-marker key fails once (the transaction is then rolled back by its owner's Close).
+type faultyEngine struct {
+	xkv.DB
+	armed atomic.Bool
+	fired atomic.Int64
+}
+
+func (e *faultyEngine) OpenTx() xkv.Tx { return &faultyTx{Tx: e.DB.OpenTx(), eng: e} }
+
+type faultyTx struct {
+	xkv.Tx
+	eng     *faultyEngine
+	touched bool
+}
+
+func userKey(key []byte) bool {
+	return bytes.HasPrefix(key, []byte("k")) || bytes.Contains(key, []byte("--dig/k"))
+}
+
+func (t *faultyTx) Set(ctx context.Context, key, value []byte, opts ...any) error {
+	if userKey(key) {
+		t.touched = true
+	}
+	return t.Tx.Set(ctx, key, value, opts...)
+}
+
+func (t *faultyTx) Delete(ctx context.Context, key []byte, opts ...any) error {
+	if userKey(key) {
+		t.touched = true
+	}
+	return t.Tx.Delete(ctx, key, opts...)
+}
+
+func (t *faultyTx) Commit(ctx context.Context, opts ...any) error {
+	if t.touched && t.eng.armed.CompareAndSwap(true, false) {
+		t.eng.fired.Add(1)
+		return errors.New("verif: injected commit failure")
+	}
+	return t.Tx.Commit(ctx, opts...)
 }
 
 // ---- subscribers
@@ -290,6 +336,7 @@ type Node struct {
 	key      uint32
 	addr     address.Address
 	engine   xkv.DB
+	faulty   *faultyEngine
 	db       *kv.DB
 	cfg      kv.Config
 	cl       *cluster.Cluster
@@ -400,6 +447,7 @@ func NewCluster(ctx context.Context, keys []uint32, T int, universe []uint32) *C
 	}
 	for _, k := range c.keys {
 		n := &Node{key: k, addr: group[node.Key(k)].Address, engine: memkv.New(), subs: map[int]*sub{}, gates: map[address.Address]*recGate{}}
+		n.faulty = &faultyEngine{DB: n.engine}
 		n.cl = &cluster.Cluster{Store: store.New(ctx)}
 		g := node.Group{}
 		for kk, vv := range group {
@@ -417,7 +465,7 @@ func NewCluster(ctx context.Context, keys []uint32, T int, universe []uint32) *C
 func (c *Cluster) open(n *Node) {
 	n.cfg = kv.Config{
 		Cluster:                 n.cl,
-		Engine:                  n.engine,
+		Engine:                  n.faulty,
 		BatchTransportClient:    c.opNet.UnaryClient(),
 		BatchTransportServer:    c.opNet.UnaryServer(n.addr),
 		FeedbackTransportClient: &fbClient{UnaryClient: c.fbNet.UnaryClient(), c: c, n: n},
@@ -916,6 +964,9 @@ func RunCase(cs Case, withSubs bool) (res Result) {
 		}
 		if c != nil {
 			res.Missed = c.missed
+			for _, k := range c.keys {
+				res.Fired += c.nodes[k].faulty.fired.Load()
+			}
 			done := make(chan struct{})
 			go func() { defer close(done); defer func() { _ = recover() }(); c.Close() }()
 			select {
@@ -931,8 +982,22 @@ func RunCase(cs Case, withSubs bool) (res Result) {
 	ctx := context.Background()
 	c = NewCluster(ctx, cs.Nodes, T, Universe(cs.Ops))
 	c.barrierAll()
-	for _, o := range cs.Ops {
+	for i, o := range cs.Ops {
+		if o.Op == "fail" {
+			// "the next ingress commit on node n fails": only meaningful right before an ingesting step
+			if n := c.nodes[o.N]; n != nil && i+1 < len(cs.Ops) {
+				switch cs.Ops[i+1].Op {
+				case "inject", "deliver", "round":
+					n.faulty.armed.Store(true)
+				}
+			}
+		}
 		rc := c.Step(o)
+		if o.Op != "fail" {
+			for _, k := range c.keys {
+				c.nodes[k].faulty.armed.Store(false)
+			}
+		}
 		d := c.Dump(withSubs)
 		d.Rc = rc
 		res.Outs = append(res.Outs, d)
